@@ -46,6 +46,9 @@ def case_strategy(draw, tier):
     if form == "file":
         case["reset_index"] = draw(st.sampled_from([True, True, False]))
     if form in ("table", "table_"):
+        # the table's row labels (the DataFrame index) are not part of the tree: the default 0..n-1, or what is left after
+        # the caller shuffled / filtered / re-labelled the rows of a bigger table
+        case["index"] = draw(st.sampled_from(["default", "default", "permuted", "offset", "strings", "reversed"]))
         # a further extra column of 64-bit integers beyond 2^53 (time stamps, database keys): carried exactly
         case["big_ints"] = draw(st.integers(0, 2)) == 0
     if form != "tree":
@@ -200,6 +203,18 @@ def run_case(case, ctx):
         if max(ids) >= 2 ** 31:
             ctx.cls("ids-beyond-2^31")
         df = pd.DataFrame(cols)
+        how_index = case.get("index", "default")
+        if how_index != "default" and n >= 2:
+            rs = np.random.RandomState(n * 7919 + sum(rows))
+            if how_index == "permuted":
+                df.index = [int(v) for v in rs.permutation(n)]
+            elif how_index == "reversed":
+                df.index = list(range(n - 1, -1, -1))
+            elif how_index == "offset":
+                df.index = [1000 + 3 * k for k in range(n)]
+            else:
+                df.index = [f"row-{k}" for k in range(n)]
+            ctx.cls("table-with-row-labels-other-than-0..n-1")
         snapshot = df.copy(deep=True)
         if form == "table":
             out = sort_nodes(df)
@@ -257,5 +272,6 @@ SUBCHECKS = [
                   "resort-with:sort_nodes_": 60, "file:fix_roots=somas": 30, "file:fix_roots=nearest": 30,
                   "one-array-under-two-column-names": 80, "rows:parents-first-ids-not-growing": 200,
                   "rows:dense-ids-root-min-first": 100, "extra-column-of-64-bit-integers": 100,
-                  "ids-beyond-2^31": 100, "file:reset_index=False": 60, "extra-column-under-an-eswc-name": 60}),
+                  "ids-beyond-2^31": 50, "file:reset_index=False": 60, "extra-column-under-an-eswc-name": 60,
+                  "table-with-row-labels-other-than-0..n-1": 200}),
 ]
